@@ -95,8 +95,37 @@ def check_vector(v):
             return bnp.open(src, lazy=lazy, **kw).read()
         return _table(fmt, rows)
 
+    extras = []
+
+    def lazy_source():
+        src = os.path.join(d, "lsrc" + suffix)
+        with open(src, "wb") as f:
+            f.write(want)
+        return bnp.open(src, **kw).read()
+
+    def lazy_extras(t):
+        """after the history of piecewise writes of slices of a lazily read table: the table itself still reads as its rows, and one
+        write of a concatenation equals writing its operands one after the other (composable)"""
+        after = C02.project(fmt, t)
+        if not C02._same(fmt, [[c for c in r] for r in rows], after):
+            extras.append(("the lazily read table no longer reads as its rows after slices of it were written", str(rows)[:300], str(after)[:300]))
+        if len(rows) >= 2:
+            whole, other = lazy_source(), lazy_source()
+            sel = other[1:]
+            p1, p2 = os.path.join(d, "join_one" + suffix), os.path.join(d, "join_two" + suffix)
+            with bnp.open(p1, "w", **kw) as w:
+                w.write(np.concatenate([whole, sel]))
+            with bnp.open(p2, "w", **kw) as w:
+                w.write(lazy_source())
+                w.write(lazy_source()[1:])
+            one, two = open(p1, "rb").read(), open(p2, "rb").read()
+            backj = C02.project(fmt, bnp.open(p1, **kw).read())
+            if one != two or not C02._same(fmt, [[c for c in r] for r in rows + rows[1:]], backj):
+                extras.append(("one write of np.concatenate([table, table[1:]]) differs from writing the two one after the other",
+                               two.decode("latin-1")[:300], one.decode("latin-1")[:300]))
+
     def run(target_kind):
-        t = source_table(lazy=False if target_kind == "plain-eager" else None)
+        t = lazy_source() if target_kind == "lazy-source" else source_table(lazy=False if target_kind == "plain-eager" else None)
         path = os.path.join(d, "out_%s%s%s" % (target_kind, suffix, ".gz" if target_kind == "gzip" else ""))
         if os.path.exists(path):
             os.remove(path)
@@ -128,6 +157,8 @@ def check_vector(v):
         raw = open(path, "rb").read()
         data = gzip.decompress(raw) if target_kind == "gzip" else raw
         back = C02.project(fmt if fmt != "gfa" else "gfa", bnp.open(path, **kw).read()) if len(rows) else []
+        if target_kind == "lazy-source":
+            lazy_extras(t)
         return data, back
     # a format may give header-less in-memory tables a default header (VCF): its text is not prescribed, so it is measured from a
     # single write of the whole table, checked to precede exactly the canonical records, and must then appear once, unchanged, for
@@ -144,7 +175,8 @@ def check_vector(v):
             return {"n": n, "nt": nt, "bad": bad}
         default_header = base[1][:len(base[1]) - len(want)]
         want = default_header + want
-    for kind in ("plain", "gzip", "stream") + (("suffix-only",) if fmt in ("bed6", "bed12") else ()) + (("plain-eager",) if v["header"] else ()):
+    for kind in ("plain", "gzip", "stream") + (("suffix-only",) if fmt in ("bed6", "bed12") else ()) + (("plain-eager",) if v["header"] else ()) \
+            + (("lazy-source",) if rows and fmt not in NO_LAZY_SOURCE else ()):
         if kind == "stream" and (-2 in pieces):
             continue
         o = outcome(run, kind)
@@ -162,9 +194,15 @@ def check_vector(v):
         elif len(rows) and not C02._same(fmt, [[c for c in r] for r in rows], back):
             bad.append({"what": "reading the written file back does not give an equal table", "tags": dict(tags, kind="readback"),
                         "vector": {k: v[k] for k in v if not k.startswith("_")}, "expected": str(rows)[:300], "observed": str(back)[:300]})
+        for what, exp, obs in extras:
+            bad.append({"what": what, "tags": dict(tags, kind="lazy-source"), "vector": {k: v[k] for k in v if not k.startswith("_")}, "expected": exp, "observed": obs})
+        del extras[:]
     import shutil
     shutil.rmtree(d, ignore_errors=True)
     return {"n": n, "nt": nt, "bad": bad}
+
+
+NO_LAZY_SOURCE = ()
 
 
 B_FORMATS = ["bed3", "bed6", "bed12", "bedgraph", "narrowpeak", "chromsizes", "gfa", "fasta", "fastq"]
